@@ -576,6 +576,7 @@ class Executor:
         self.draws = {}      # step index -> list of recorded randn arrays
         self.buffers = {}    # (client, name) -> ndarray reused and refilled in place by a client
         self.cfg_at = {}     # step index -> (class, configuration) of the object at that call
+        self.dead_objs = set()   # objects whose constructor raised
         self.seq = 0
 
     def _target(self, step):
@@ -716,7 +717,21 @@ class Executor:
                     rec["ok"] = "exc"
                     rec["exc"] = type(e).__name__
                     rec["exc_msg"] = str(e)[:200]
+                    # every configuration the generators produce is inside the documented domain:
+                    # a constructor that refuses it is a loud rejection of an in-domain request
+                    self.dead_objs.add(step["obj"])
+                    if not step.get("may_fail"):
+                        viol.append({"oracle": "raised", "step": i,
+                                     "detail": f"constructor {step['cls']}({step.get('cfg', {})}) raised "
+                                               f"{rec['exc']}: {rec['exc_msg']}"})
                 rec["rng_after"] = rng_digest(np.random.get_state())
+            elif (step.get("obj") in self.dead_objs) or \
+                    (k in ("repeat", "reissue", "mutate") and self.trace["steps"][step["of"]].get("obj") in self.dead_objs):
+                # the object of this step was never constructed (reported above): nothing to run
+                rec = {"i": i, "k": k, "ok": "skipped", "seq_invoke": self.seq}
+                self.seq += 1
+                self.recs.append(rec)
+                continue
             elif k == "mutate":
                 # the caller overwrites (in place) a value the library returned earlier - it is the
                 # caller's value; nothing inside the library may depend on it any more
@@ -850,7 +865,13 @@ def _sweep(self, i, step, hooks, viol):
             self.objs[new_step["obj"]] = cls(**new_step["cfg"])
         self.objcfg[new_step["obj"]] = (step["cls"], new_step["cfg"])
 
-    fresh()
+    try:
+        fresh()
+    except Exception as e:  # noqa: BLE001  (an in-domain configuration refused by the constructor)
+        viol.append({"oracle": "raised", "step": i, "explicit": [new_step, base_call],
+                     "detail": f"constructor {step['cls']}({new_step['cfg']}) raised {type(e).__name__}: {str(e)[:200]}"})
+        return {"i": i, "k": "sweep", "ok": "exc", "exc": type(e).__name__, "n_sub": 0, "n_fired": 0,
+                "seq_invoke": self.seq, "lines": 0}
     # RNG state every sub-run starts from: the state right AFTER construction, so that a
     # seeded constructor really seeds the stream the call consumes ("quiet schedule")
     st = np.random.get_state()
